@@ -315,6 +315,20 @@ def shape_scan(chk, repo, clause, modules, skip=()):
     return n
 
 
+def loop_accumulator(p, value):
+    """(loop info, variable name) of the loop-carried variable that ``value`` (a loop phi atom) denotes on
+    path p, whatever the variable is called; (None, None) if it is not a loop-carried variable."""
+    from ..nf import Poly
+    a = value.single_atom() if isinstance(value, Poly) else None
+    if a is None or a[0] != 'loop':
+        return None, None
+    for lp in p.state.loops:
+        for n, phi in lp['phi'].items():
+            if phi.single_atom()[1] == a[1]:
+                return lp, n
+    return None, None
+
+
 def operands_untouched(chk, repo, clause, keys, allow=()):
     """None of the functions writes (directly or through callees) into a caller-supplied operand,
     except the documented accumulate-into targets in ``allow`` ((function key, parameter) pairs).
